@@ -137,6 +137,19 @@ func RunNewEpic(opts GlobalOptions) error {
 	return nil
 }
 
+// refreshCreateOutput re-reads the created item so that the reply reports the state
+// the follow-up update (state/claim given at creation) left it in.
+func refreshCreateOutput(dir string, out *createOutput) error {
+	graph, err := loadGraph(dir)
+	if err != nil {
+		return err
+	}
+	if task := graph.Tasks[out.ID]; task != nil {
+		out.State = task.State
+	}
+	return nil
+}
+
 func RunNewTask(opts GlobalOptions) error {
 	if opts.BodyStdin {
 		if err := validateBodyStdinExclusions(opts.BodyFlag); err != nil {
@@ -166,6 +179,9 @@ func RunNewTask(opts GlobalOptions) error {
 		if len(updates) > 0 {
 			agentID := opts.AgentID
 			if err := applySetUpdates(dir, opts, created.ID, updates, agentID, true); err != nil {
+				return err
+			}
+			if err := refreshCreateOutput(dir, &created); err != nil {
 				return err
 			}
 		}
@@ -203,6 +219,9 @@ func RunNewTask(opts GlobalOptions) error {
 		if len(updates) > 0 {
 			agentID := opts.AgentID
 			if err := applySetUpdates(dir, opts, created.ID, updates, agentID, true); err != nil {
+				return err
+			}
+			if err := refreshCreateOutput(dir, &created); err != nil {
 				return err
 			}
 		}
@@ -252,6 +271,9 @@ func RunNewTask(opts GlobalOptions) error {
 		if len(updates) > 0 {
 			agentID := opts.AgentID
 			if err := applySetUpdates(dir, opts, created.ID, updates, agentID, true); err != nil {
+				return err
+			}
+			if err := refreshCreateOutput(dir, &created); err != nil {
 				return err
 			}
 		}
